@@ -264,6 +264,30 @@ def r3(ctx):
             p = par.get(r[0])
             if isinstance(p, ast.If):
                 guard_ok = Norm(strict=False).b(p.test) in (_bn(f"np.any({m})"), _bn(f"({m}).any()"))
+        if not (ok and guard_ok):
+            # per path, with locals read through: subset(mask) exactly on the paths where some such row exists, None otherwise
+            from engine.astutil import path_returns
+            ps = path_returns(f.node)
+            if ps is not None:
+                Nn = Norm(strict=False)
+                any_forms = (_bn(f"np.any({m})"), _bn(f"({m}).any()"))
+                good = bool(ps)
+                seen_view = False
+                for conds, ret in ps:
+                    has_any = None
+                    for t, pol in conds:
+                        if Nn.b(t, neg=not pol) in any_forms:
+                            has_any = True
+                        elif Nn.b(t, neg=pol) in any_forms:
+                            has_any = False
+                    if ret is None or (isinstance(ret, ast.Constant) and ret.value is None):
+                        good = good and has_any is False
+                    elif isinstance(ret, ast.Call) and U(ret.func) == "self.subset" and len(ret.args) == 1 and Nn.b(ret.args[0]) == _bn(m):
+                        good = good and has_any is True
+                        seen_view = True
+                    else:
+                        good = False
+                ok = guard_ok = good and seen_view
         ctx.check("R3", f"{f.site()}::mask", ok and guard_ok, f"{name} = subset({m}) when any such row exists",
                   f"{name} returns `{U(r[0].value) if r else None}` / guard mismatch")
     # Screen.subset / get_plate
@@ -278,13 +302,20 @@ def r3(ctx):
     ok = len(r) == 1 and isinstance(r[0].value, ast.Call) and U(r[0].value.args[0]) == "self" \
         and Norm(strict=False).b(r[0].value.args[1]) == _bn(f"self.plate_ids == {pid}")
     ctx.check("R3", f"{f.site()}::rows", ok, "plate = rows whose plate id equals the given id", f"get_plate returns `{U(r[0].value) if r else None}`")
+    gp = ctx.fn("data.Screen.get_plate")
+    gpr = returns(gp.node)
     f = ctx.fn("data.Screen.plates")
     r = returns(f.node)
     ok = len(r) == 1 and U(r[0].value).replace(" ", "") == "[self.get_plate(x)forxinself.unique_plate_ids]"
-    if not ok and len(r) == 1 and isinstance(r[0].value, ast.ListComp):
-        lc = r[0].value
-        ok = (len(lc.generators) == 1 and not lc.generators[0].ifs and U(lc.generators[0].iter) == "self.unique_plate_ids"
-              and isinstance(lc.elt, ast.Call) and U(lc.elt.func) == "self.get_plate" and U(lc.elt.args[0]) == U(lc.generators[0].target))
+    rv = inline(r[0].value, single_defs(f.node)) if len(r) == 1 and r[0].value is not None else None
+    if not ok and isinstance(rv, ast.ListComp):
+        lc = rv
+        shape = len(lc.generators) == 1 and not lc.generators[0].ifs and U(lc.generators[0].iter) == "self.unique_plate_ids" and isinstance(lc.generators[0].target, ast.Name)
+        ok = shape and isinstance(lc.elt, ast.Call) and U(lc.elt.func) == "self.get_plate" and U(lc.elt.args[0]) == U(lc.generators[0].target)
+        if shape and not ok and len(gpr) == 1:
+            # get_plate written out in place: its return expression with the loop variable for the id
+            want_elt = inline(gpr[0].value, {pid: ast.Name(id=lc.generators[0].target.id, ctx=ast.Load())})
+            ok = U(lc.elt).replace(" ", "") == U(want_elt).replace(" ", "")
     ctx.check("R3", f"{f.site()}::all-plates", ok, "one plate per unique plate id", f"plates returns `{U(r[0].value) if r else None}`")
 
 
